@@ -9,7 +9,7 @@ import (
 func C08(r *ev.Run) {
 	r.SetRule("one case = one fault-free synchronous multi-height run (all validators honest; every due envelope is delivered, in a seeded random order with duplicates, before any timer may expire; N, heights, anti-MEV mode, dynamic block time, latency and block-persistence delay drawn from the seed); non-trivial = some commit/response was delivered before the proposal or some payload before its height/view was entered; distinct = distinct abstract traces")
 	r.Assume("latency <= TimePerBlock/50 and block-persistence (Reset) delay <= 1.4 x TimePerBlock (less than the backups' 2 x TimePerBlock timers), so that the premise 'every message is delivered before the next timer expires' holds; runs with non-zero latency or Reset delay do not start at ledger height 0 (see DESIGN.md §5.10)")
-	protoCheck(r, []Plan{{"sync-perm", 20000, 400000}}, func() (vnet.Monitor, func() ([]mon.V, map[string]int64)) {
+	protoCheck(r, []Plan{{"sync-perm", 20000, 400000}, {"long-chain", 30, 1500}}, func() (vnet.Monitor, func() ([]mon.V, map[string]int64)) {
 		m := &mon.SyncRun{}
 		return m, func() ([]mon.V, map[string]int64) { return m.Viols, m.Cnt }
 	}, func(b *Built, cnt map[string]int64) bool {
